@@ -61,6 +61,10 @@ def run(prog, rep, tier):
             problems.append("flushed += flushed missing (adds: %s)" % fa.get("flushed"))
         if not fa.get("lines"):
             problems.append("lines is never increased")
+        elif kind != "fixedstruct" and all(x == ("const", 1) for x in fa.get("lines")):
+            # text, event-log and journal messages can span many lines (continuation lines, XML, the verbose and
+            # export renderings): the line count has to come from the printed data, not be a constant
+            problems.append("lines grows by the constant 1 per message although a %s message can be several lines" % kind)
         if ("const", 1) not in fa.get(counter, []):
             problems.append("%s += 1 missing" % counter)
         others = [k for k in KINDS.values() if k != counter and fa.get(k)]
